@@ -132,6 +132,17 @@ class OptimizerModule:
 
         """
 
+        def holds_no_tensor(state: Any) -> bool:
+            if isinstance(state, torch.Tensor):
+                return False
+            if isinstance(state, OptimizerModule):
+                return holds_no_tensor(state.__dict__)
+            if isinstance(state, dict):
+                return all(holds_no_tensor(value) for value in state.values())
+            if isinstance(state, (list, tuple, set)):
+                return all(holds_no_tensor(value) for value in state)
+            return True
+
         def load_from_new_state_to_old_state(
             old_state: StateDict, new_state: StateDict
         ) -> StateDict:
@@ -165,10 +176,19 @@ class OptimizerModule:
                             old_state=old_value,
                             new_state=new_state[i],
                         )
-                        if store_non_tensors
-                        or isinstance(
-                            old_value,
-                            (torch.Tensor, dict, list, tuple, set, OptimizerModule),
+                        if (
+                            store_non_tensors
+                            or isinstance(
+                                old_value,
+                                (torch.Tensor, dict, list, tuple, set, OptimizerModule),
+                            )
+                        )
+                        # An entry that holds no tensor may be absent from the state to load, e.g.,
+                        # because flatten() drops sub-dictionaries without any tensor when checkpointing.
+                        and not (
+                            isinstance(new_state, dict)
+                            and i not in new_state
+                            and holds_no_tensor(old_value)
                         )
                         else old_value
                     )
